@@ -1,6 +1,7 @@
 (* C07 — property theorems only.  Each is closed by `exact` of a lemma of C07_Proofs.v. *)
 From Coq Require Import List NArith Bool String.
-From Dae Require Import C07_Spec C07_Model C07_Proofs C07_ProofsSplit C07_ProofsRouter.
+From Dae Require Import C07_Spec C07_Model C07_Proofs C07_ProofsSplit C07_ProofsRouter C07_ProofsFwd.
+From Dae.gen Require C07_FwdKey.
 From Dae.gen Require Import C07_Consts.
 Import ListNotations.
 Open Scope N_scope.
@@ -205,3 +206,39 @@ Theorem C07_router_lookup_plan :
     dialer_plan r named control host bm q = Ok (lookup_plan rc named control host q).
 Proof. exact C07_router_lookup_plan_proof. Qed.
 Print Assumptions C07_router_lookup_plan.
+
+(* ================================================================================================ *)
+(* From the chosen upstream to the forwarder that carries the question (dnsForwarderKey)              *)
+(* ================================================================================================ *)
+
+(* THE KEY SEPARATES UPSTREAMS.  The forwarder-cache key, made of exactly the components newDnsForwarderKey puts into
+   it (coq/gen/C07_FwdKey.v, read off the source on every run), is equal for two upstreams only if they agree in
+   scheme, host name, port and path — whatever the dial arguments. *)
+Theorem C07_forwarder_key_injective :
+  forall (u1 u2 : uid) (d1 d2 : dialarg), fwd_key u1 d1 = fwd_key u2 d2 -> uid_same u1 u2 = true.
+Proof. intros u1 u2 d1 d2. exact (C07_forwarder_key_injective_proof u1 d1 u2 d2). Qed.
+Print Assumptions C07_forwarder_key_injective.
+
+(* A key that keeps only the scheme (or drops only the path) next to the dial argument does NOT: two different
+   resolvers behind the same address and port collide. *)
+Theorem C07_scheme_only_key_refuted :
+  exists u1 u2 d, fwd_key_of [1] C07_FwdKey.FwdKeyDialFields u1 d = fwd_key_of [1] C07_FwdKey.FwdKeyDialFields u2 d
+                  /\ uid_same u1 u2 = false.
+Proof. exact C07_scheme_only_key_refuted_proof. Qed.
+Print Assumptions C07_scheme_only_key_refuted.
+Theorem C07_pathless_key_refuted :
+  exists u1 u2 d, fwd_key_of [1; 2; 3] C07_FwdKey.FwdKeyDialFields u1 d = fwd_key_of [1; 2; 3] C07_FwdKey.FwdKeyDialFields u2 d
+                  /\ uid_same u1 u2 = false.
+Proof. exact C07_pathless_key_refuted_proof. Qed.
+Print Assumptions C07_pathless_key_refuted.
+
+(* THE QUESTION LEAVES THROUGH A FORWARDER MADE FOR THE CHOSEN UPSTREAM.  For every history of upstream queries
+   (successive questions, re-asks, any upstreams and dial arguments, failures that retire UDP forwarders), starting
+   from the empty forwarder cache: the forwarder getOrCreateDnsForwarder hands out for the k-th query was created for
+   an upstream with the scheme, host, port and path of the upstream chosen for that query. *)
+Theorem C07_forwarder_for_chosen_upstream :
+  forall h : list fstep,
+    Forall2 (fun b s => uid_same b (fs_u s) = true) (fst (run_forward [] h)) h /\
+    carried_ok (map fs_u h) (fst (run_forward [] h)) = true.
+Proof. exact C07_forwarder_for_chosen_upstream_proof. Qed.
+Print Assumptions C07_forwarder_for_chosen_upstream.
